@@ -392,7 +392,7 @@ def fixed_sampling_items(g, pr):
             return _defs(prefix, Q, shift) + f'def {prefix}Wired : Bool := {"true" if wired else "false"}\n'
         fb = ''.join(f'def {prefix}{nm} {RAT7} : Rat := {M}.fixedQ {s} inputDx propDist wavelength outputDx\n'
                      for nm, s in (('Qy', 'a0'), ('Qx', 'a1'))) + \
-            f'def {prefix}ShiftX {RAT7} : Rat := sx / outputDx\ndef {prefix}ShiftY {RAT7} : Rat := sy / outputDx\n' \
+            f'def {prefix}ShiftX {RAT7} : Rat := (if ((sx ≠ (0 : Rat)) ∨ (sy ≠ (0 : Rat))) then (sx / outputDx) else sx)\ndef {prefix}ShiftY {RAT7} : Rat := (if ((sx ≠ (0 : Rat)) ∨ (sy ≠ (0 : Rat))) then (sy / outputDx) else sy)\n' \
             f'def {prefix}Wired : Bool := true\n'
         g.item(fname, f'prysm/propagation.py:{fname}', lambda fname=fname: get_def(pr, fname), build, fb)
 
@@ -460,10 +460,10 @@ def fpm_items(g, pr):
                 + f'def fpmFwdWired : Bool := {"true" if wired else "false"}\n')
     fb_f = (''.join(f'def fpmFwdOut{nm} {FPM_BINDER} : Rat := {t}\n' for nm, t in
                     (('Qy', f'{M}.fixedQ p0 dx efl wavelength fpmDx'), ('Qx', f'{M}.fixedQ p1 dx efl wavelength fpmDx'),
-                     ('ShiftX', 'sx / fpmDx'), ('ShiftY', 'sy / fpmDx')))
+                     ('ShiftX', '(if ((sx ≠ (0 : Rat)) ∨ (sy ≠ (0 : Rat))) then (sx / fpmDx) else sx)'), ('ShiftY', '(if ((sx ≠ (0 : Rat)) ∨ (sy ≠ (0 : Rat))) then (sy / fpmDx) else sy)')))
             + ''.join(f'def fpmFwdRet{nm} {FPM_BINDER} : Rat := {t}\n' for nm, t in
                       (('Qy', f'{M}.fixedQ m0 fpmDx efl wavelength dx'), ('Qx', f'{M}.fixedQ m1 fpmDx efl wavelength dx'),
-                       ('ShiftX', 'sx * dx / fpmDx / dx'), ('ShiftY', 'sy * dx / fpmDx / dx')))
+                       ('ShiftX', '(if ((((sx * dx) / fpmDx) ≠ (0 : Rat)) ∨ (((sy * dx) / fpmDx) ≠ (0 : Rat))) then (((sx * dx) / fpmDx) / dx) else ((sx * dx) / fpmDx))'), ('ShiftY', '(if ((((sx * dx) / fpmDx) ≠ (0 : Rat)) ∨ (((sy * dx) / fpmDx) ≠ (0 : Rat))) then (((sy * dx) / fpmDx) / dx) else ((sy * dx) / fpmDx))')))
             + 'def fpmFwdWired : Bool := true\n')
     g.item('to_fpm_and_back', 'prysm/propagation.py:to_fpm_and_back', lambda: get_def(pr, 'to_fpm_and_back'), fwd, fb_f)
 
@@ -490,24 +490,96 @@ def babinet_items(g, pr):
         one_minus_f = any(isinstance(n, ast.Assign) and ast.unparse(n) == 'fpm = 1 - fpm' for n in fwd.body)
         one_minus_b = any(isinstance(n, ast.Assign) and ast.unparse(n) == 'fpm = 1 - fpm' for n in bk.body)
         fwd_form = ('field_at_lyot = self.data - field.data' in src_f and 'field_after_lyot = lyot * field_at_lyot' in src_f)
-        # lyot conjugation in the backprop
-        conj_lyot = False
-        for n in ast.walk(bk):
-            if isinstance(n, ast.If) and ast.unparse(n.test) == 'np.iscomplexobj(lyot)' and len(n.body) == 1 \
-                    and ast.unparse(n.body[0]) in ('lyot = np.conj(lyot)', 'lyot = lyot.conj()'):
-                conj_lyot = True
-        cbar_form = 'cbar = dbar * lyot' in src_b and 'dbar = self.data' in src_b
-        # without a Lyot stop the upstream gradient passes unchanged: `else: cbar = dbar`
-        none_branch = any(isinstance(n, ast.If) and ast.unparse(n.test) == 'lyot is not None' and len(n.orelse) == 1
-                          and ast.unparse(n.orelse[0]) == 'cbar = dbar' for n in ast.walk(bk))
-        cbar_form = cbar_form and none_branch
+        # what is handed to the mask-and-back adjoint (`cbar`), by SYMBOLIC EXECUTION of the body under the three kinds of Lyot stop
+        # (absent / real array / complex array): if/else, default-then-override, early assignment ... all give the same term
+        def cbar_term(kind):
+            import copy
+            static = {'isinstance(fpm, Wavefront)': False, 'isinstance(lyot, Wavefront)': False,
+                      'lyot is not None': kind != 'none', 'lyot is None': kind == 'none',
+                      'np.iscomplexobj(lyot)': kind == 'complex', 'np.isrealobj(lyot)': kind == 'real'}
+            env = {}
+
+            def subst(e):
+                class S(ast.NodeTransformer):
+                    def visit_Name(self, n):
+                        return copy.deepcopy(env[n.id]) if (isinstance(n.ctx, ast.Load) and n.id in env) else n
+                return S().visit(copy.deepcopy(e))
+
+            def test(t):
+                if isinstance(t, ast.UnaryOp) and isinstance(t.op, ast.Not):
+                    return not test(t.operand)
+                if isinstance(t, ast.BoolOp):
+                    vs = [test(v) for v in t.values]
+                    return all(vs) if isinstance(t.op, ast.And) else any(vs)
+                k = ast.unparse(t)
+                if k not in static:
+                    raise Untranslatable(f'babinet_backprop branches on {k}')
+                return static[k]
+
+            def run(stmts):
+                for st in stmts:
+                    if isinstance(st, ast.If):
+                        run(st.body if test(st.test) else st.orelse)
+                    elif isinstance(st, ast.Assign) and len(st.targets) == 1 and isinstance(st.targets[0], ast.Name):
+                        env[st.targets[0].id] = subst(st.value)
+                    elif isinstance(st, ast.AugAssign) and isinstance(st.target, ast.Name):
+                        cur = env.get(st.target.id, ast.Name(id=st.target.id, ctx=ast.Load()))
+                        env[st.target.id] = ast.BinOp(left=copy.deepcopy(cur), op=st.op, right=subst(st.value))
+            run(bk.body)
+            call = find_calls(bk, 'Wavefront')
+            # the array wrapped for the mask-and-back adjoint: first argument of the Wavefront(...) built before that call
+            tgt = None
+            for n in ast.walk(bk):
+                if isinstance(n, ast.Assign) and isinstance(n.value, ast.Call) and ast.unparse(n.value.func) == 'Wavefront' and n.value.args:
+                    tgt = n.value.args[0]
+            if tgt is None:
+                raise Untranslatable('no Wavefront(cbar, ...) handed to the mask-and-back adjoint')
+            e = env.get(tgt.id) if isinstance(tgt, ast.Name) else None
+            if e is None:
+                raise Untranslatable('cbar not assigned by recognised statements')
+
+            def tr(x):
+                u = ast.unparse(x)
+                if u == 'self.data':
+                    return 'd'
+                if u == 'lyot':
+                    if kind == 'none':
+                        raise Untranslatable('lyot used although absent')
+                    return 'L'
+                if isinstance(x, ast.Constant) and isinstance(x.value, int) and not isinstance(x.value, bool):
+                    return f'(({x.value} : Int) : C)'
+                if isinstance(x, ast.BinOp) and type(x.op) in (ast.Mult, ast.Add, ast.Sub):
+                    return '(' + tr(x.left) + ' ' + {ast.Mult: '*', ast.Add: '+', ast.Sub: '-'}[type(x.op)] + ' ' + tr(x.right) + ')'
+                if isinstance(x, ast.Call):
+                    f = ast.unparse(x.func)
+                    if f in ('np.conj', 'np.conjugate') and len(x.args) == 1:
+                        return f'(conj {tr(x.args[0])})'
+                    if isinstance(x.func, ast.Attribute) and x.func.attr in ('conj', 'conjugate') and not x.args:
+                        return f'(conj {tr(x.func.value)})'
+                raise Untranslatable(f'cbar expression {u[:60]}')
+            return tr(e)
+        CB = '{C : Type} [Mul C] [Add C] [Sub C] [IntCast C] (conj : C → C) (d L : C) : C'
+        cbar_defs = (f'def babinetBackCbarNone {CB} := {cbar_term("none")}\n'
+                     f'def babinetBackCbarReal {CB} := {cbar_term("real")}\n'
+                     f'def babinetBackCbarComplex {CB} := {cbar_term("complex")}\n')
         # the adjoint of to_fpm_and_back is applied to cbar, with the same arguments as the forward call
         calls = find_calls(bk, 'cbarW.to_fpm_and_back_backprop')
         fcalls = find_calls(fwd, 'self.to_fpm_and_back')
         def kws(c):
             return {k.arg: ast.unparse(k.value) for k in c.keywords if k.arg != 'return_more'}
-        same_args = len(calls) == 1 and len(fcalls) >= 1 and all(kws(c) == kws(calls[0]) for c in fcalls) \
-            and 'cbarW = Wavefront(cbar, ' in src_b
+        if len(calls) != 1 or len(fcalls) < 1 or calls[0].args or any(c.args for c in fcalls):
+            raise Untranslatable('call of the mask-and-back adjoint not in the recognised (keyword) shape')
+        same_args = all(kws(c) == kws(calls[0]) for c in fcalls)
+        if not same_args:
+            plain = lambda v: v.replace('_', '').replace('.', '').isalnum()
+            diff_vals = [v for c in fcalls for k_, v in kws(c).items() if kws(calls[0]).get(k_) != v] + \
+                        [v for k_, v in kws(calls[0]).items() if any(kws(c).get(k_) != v for c in fcalls)]
+            if not all(plain(v) for v in diff_vals):
+                raise Untranslatable('arguments of the mask-and-back calls differ by expressions this recogniser cannot compare')
+        if not (one_minus_f and one_minus_b):
+            raise Untranslatable('`fpm = 1 - fpm` not found as a statement on both sides')
+        if not fwd_form:
+            raise Untranslatable('forward babinet not in the recognised shape')
         # how the two terms are combined
         coef = None
         for n in bk.body:
@@ -529,12 +601,15 @@ def babinet_items(g, pr):
         return (f'def babinetBackCoef : Int := {coef}\n'
                 f'def babinetMaskIsOneMinusInBoth : Bool := {b(one_minus_f and one_minus_b)}\n'
                 f'def babinetFwdIsLyotTimesDataMinusField : Bool := {b(fwd_form)}\n'
-                f'def babinetBackConjLyotIffComplex : Bool := {b(conj_lyot and cbar_form)}\n'
+                + cbar_defs +
                 f'def babinetBackSameCallArgs : Bool := {b(same_args)}\n')
     g.item('babinet_backprop', 'prysm/propagation.py:Wavefront.babinet_backprop',
            lambda: get_def(pr, 'Wavefront.babinet_backprop'), facts,
            'def babinetBackCoef : Int := -1\ndef babinetMaskIsOneMinusInBoth : Bool := true\n'
-           'def babinetFwdIsLyotTimesDataMinusField : Bool := true\ndef babinetBackConjLyotIffComplex : Bool := true\n'
+           'def babinetFwdIsLyotTimesDataMinusField : Bool := true\n'
+           'def babinetBackCbarNone {C : Type} [Mul C] [Add C] [Sub C] [IntCast C] (conj : C → C) (d L : C) : C := d\n'
+           'def babinetBackCbarReal {C : Type} [Mul C] [Add C] [Sub C] [IntCast C] (conj : C → C) (d L : C) : C := (d * L)\n'
+           'def babinetBackCbarComplex {C : Type} [Mul C] [Add C] [Sub C] [IntCast C] (conj : C → C) (d L : C) : C := (d * (conj L))\n'
            'def babinetBackSameCallArgs : Bool := true\n')
 
 
@@ -560,6 +635,7 @@ def spatial_gradient_items(g, op):
         outname = outs[0]
         tr = Tr({endname: 'e'})
         slices = {}
+        views = {}          # local name -> terms: a hoisted (combination of) slice(s) of the INPUT array, which is never written
         upds = []
         axes = set()
         zero_init = False
@@ -592,6 +668,8 @@ def spatial_gradient_items(g, op):
                 ax, lo, hi = sl(node.slice)
                 axes.add(ax)
                 return [(sign, lo, hi)]
+            if isinstance(node, ast.Name) and node.id in views:
+                return [(sign * sg, lo, hi) for sg, lo, hi in views[node.id]]
             raise Untranslatable(f'right-hand side {ast.unparse(node)}')
 
         for st in fn.body:
@@ -612,6 +690,9 @@ def spatial_gradient_items(g, op):
                     continue
                 if isinstance(st.value, ast.Call) and ast.unparse(st.value.func) == 'slice' and len(st.value.args) == 2:
                     slices[nm] = (tr.expr(st.value.args[0]), tr.expr(st.value.args[1]))
+                    continue
+                if nm not in (arg, outname, endname) and nm not in slices:
+                    views[nm] = terms(st.value, 1)      # raises Untranslatable unless a combination of slices of the input
                     continue
                 raise Untranslatable(f'statement {ast.unparse(st)}')
             tgt = st.targets[0] if isinstance(st, ast.Assign) else st.target if isinstance(st, ast.AugAssign) else None
@@ -771,6 +852,124 @@ class VecTr:
         return None
 
 
+class MaskTr(VecTr):
+    """VecTr for the MASKED path of a cost function (`mask is not None` taken).  Three kinds of values:
+    ('s', term) scalar | ('v', body in `i`) array over the whole domain (n entries) | ('c', body in `k`) compressed array (cnt kept
+    entries).  `X[mask]` of a whole-domain array is `X (idx k)` (idx enumerates the kept positions), `Z[mask] = g` on a zero array is
+    `Model.C06.scatterMask cnt idx g`; mixing the two domains element-wise is a shape error (Untranslatable)."""
+
+    def __init__(self, env, funcs=None, static=None):
+        super().__init__(env, funcs, static)
+        self.zero = set()
+
+    def bind_name(self, name, v):
+        if v[0] != 'c':
+            self.zero.discard(name)
+            return super().bind_name(name, v)
+        k = self._n.get(name, 0)
+        self._n[name] = k + 1
+        ln = f'{name}_' if k == 0 else f'{name}_{k}'
+        self.lets.append(f'let {ln} : Nat → K := fun k => {v[1]}')
+        self.env[name] = ('c', f'({ln} k)')
+        self.zero.discard(name)
+
+    def fresh_fn(self, v):
+        """a whole-domain value as a named function of the position"""
+        k = self._n.get('full', 0)
+        self._n['full'] = k + 1
+        ln = f'full_{k}'
+        self.lets.append(f'let {ln} : Nat → K := fun i => {v[1]}')
+        return ln
+
+    def ev(self, e):
+        key = ast.unparse(e)
+        if key in self.env:
+            return self.env[key]
+        if isinstance(e, ast.Subscript) and ast.unparse(e.slice) == 'mask':
+            v = self.ev(e.value)
+            if v[0] != 'v':
+                raise Untranslatable(f'[mask] of a {v[0]} value: {key}')
+            return ('c', f'({self.fresh_fn(v)} (idx k))')
+        if isinstance(e, ast.BinOp) and not isinstance(e.op, ast.Pow):
+            sym = {ast.Add: '+', ast.Sub: '-', ast.Mult: '*', ast.Div: '/'}.get(type(e.op))
+            if sym is None:
+                raise Untranslatable(f'operator {key}')
+            a, b = self.ev(e.left), self.ev(e.right)
+            kinds = {a[0], b[0]} - {'s'}
+            if len(kinds) > 1:
+                raise Untranslatable(f'whole-domain and compressed arrays combined: {key}')
+            return (kinds.pop() if kinds else 's', f'({a[1]} {sym} {b[1]})')
+        if isinstance(e, ast.Attribute) and e.attr == 'size':
+            v = self.ev(e.value)
+            if v[0] == 'c':
+                return ('s', '(Num.ofInt (cnt : Int))')
+            if v[0] == 'v':
+                return ('s', '(Num.ofInt (n : Int))')
+        if isinstance(e, ast.Call) and isinstance(e.func, ast.Attribute) and e.func.attr in ('sum', 'mean') and not e.args and not e.keywords:
+            v = self.ev(e.func.value)
+            if v[0] == 'c':
+                tot = f'(Num.sumTo cnt (fun k => {v[1]}))'
+                return ('s', tot if e.func.attr == 'sum' else f'({tot} / (Num.ofInt (cnt : Int)))')
+        if isinstance(e, ast.Call) and ast.unparse(e.func) in ('np.zeros', 'np.zeros_like'):
+            a0 = ast.unparse(e.args[0]) if e.args else ''
+            if ast.unparse(e.func) == 'np.zeros_like':
+                ok = self.ev(e.args[0])[0] == 'v'
+            else:
+                ok = a0 == 'mask.shape' or (a0.endswith('.shape') and a0[:-6] in self.env and self.env[a0[:-6]][0] == 'v')
+            if not ok:
+                raise Untranslatable(f'zeros of an extent that is not the whole domain: {key}')
+            return ('z', '(Num.ofInt (0))')
+        return super().ev(e)
+
+    def run(self, stmts):
+        for pos, st in enumerate(stmts):
+            if isinstance(st, ast.Assign) and len(st.targets) == 1:
+                tgt = st.targets[0]
+                if isinstance(tgt, ast.Name):
+                    v = self.ev(st.value)
+                    if v[0] == 'z':
+                        self.bind_name(tgt.id, ('v', v[1]))
+                        self.zero.add(tgt.id)
+                        continue
+                    was_zero = isinstance(st.value, ast.Name) and st.value.id in self.zero
+                    self.bind_name(tgt.id, v)
+                    if was_zero:
+                        self.zero.add(tgt.id)
+                    continue
+                if isinstance(tgt, ast.Subscript) and ast.unparse(tgt.slice) == 'mask' and isinstance(tgt.value, ast.Name):
+                    nm = tgt.value.id
+                    if nm not in self.zero:
+                        raise Untranslatable(f'{nm}[mask] = ... on an array that is not freshly zero')
+                    v = self.ev(st.value)
+                    if v[0] != 'c':
+                        raise Untranslatable(f'{nm}[mask] = <{v[0]} value>')
+                    self.bind_name(nm, ('v', f'(Model.C06.scatterMask cnt idx (fun k => {v[1]}) i)'))
+                    continue
+            r = VecTr.run(self, [st])
+            if r is not None:
+                return r
+        return None
+
+
+def _masked_terms(fn, env, name, hdr_extra, args, funcs=None):
+    """cost and gradient of the masked path as Lean terms"""
+    t = MaskTr(env, funcs=funcs, static={'mask is not None': True, 'mask is None': False,
+                                         'not isinstance(yhat, numbers.Number)': True, 'isinstance(yhat, numbers.Number)': False})
+    cost, grad = t.run(fn.body)
+    if cost[0] != 's' or grad[0] != 'v':
+        raise Untranslatable(f'{fn.name} (masked path): kinds of the returned values {cost[0]}, {grad[0]}')
+    H = f'{{K : Type}} [Num K] {hdr_extra}(n cnt : Nat) (idx : Nat → Nat) ({args} : Nat → K)'
+    return (f'def {name}MaskedCost {H} : K :=\n{t.prefix()}  {cost[1]}\n'
+            f'def {name}MaskedGrad {H} : Nat → K :=\n{t.prefix()}  fun i => {grad[1]}\n')
+
+
+def _masked_fallback(name, hdr_extra, args, cost_call, grad_call):
+    H = f'{{K : Type}} [Num K] {hdr_extra}(n cnt : Nat) (idx : Nat → Nat) ({args} : Nat → K)'
+    a, b = args.split()
+    return (f'def {name}MaskedCost {H} : K := {cost_call} cnt (Model.C06.compress idx {a}) (Model.C06.compress idx {b})\n'
+            f'def {name}MaskedGrad {H} : Nat → K := Model.C06.scatterMask cnt idx ({grad_call} cnt (Model.C06.compress idx {a}) (Model.C06.compress idx {b}))\n')
+
+
 def _vec(v):
     """a value as a Lean function Nat -> K"""
     return f'(fun i => {v[1]})'
@@ -886,6 +1085,21 @@ def cost_items(g, co):
            lambda: get_def(co, 'negative_loglikelihood'), nll,
            f'def nllCost {{K : Type}} [Num K] (lg : K → K) (n : Nat) (y yhat : Nat → K) : K := {M}.nllCost lg n y yhat\n'
            f'def nllGrad {{K : Type}} [Num K] (lg : K → K) (n : Nat) (y yhat : Nat → K) : Nat → K := {M}.nllGrad n y yhat\ndef nllMaskedIsCompressScatter : Bool := true\n')
+
+
+    # ---- the MASKED path of each cost function as a term (session 3b): compress, closed form on the kept samples, scatter
+    g.item('mean_square_error.masked', 'prysm/x/optym/cost.py:mean_square_error', lambda: get_def(co, 'mean_square_error'),
+           lambda: _masked_terms(get_def(co, 'mean_square_error'), {'M': ('v', '(M i)'), 'D': ('v', '(D i)')}, 'mse', '', 'M D'),
+           _masked_fallback('mse', '', 'M D', f'{M}.mseCost', f'{M}.mseGrad'))
+    g.item('bias_and_gain_invariant_error.masked', 'prysm/x/optym/cost.py:bias_and_gain_invariant_error',
+           lambda: get_def(co, 'bias_and_gain_invariant_error'),
+           lambda: _masked_terms(get_def(co, 'bias_and_gain_invariant_error'), {'I': ('v', '(I i)'), 'D': ('v', '(D i)')}, 'bgie', '', 'I D'),
+           _masked_fallback('bgie', '', 'I D', f'{M}.bgieCost', f'{M}.bgieGrad'))
+    g.item('negative_loglikelihood.masked', 'prysm/x/optym/cost.py:negative_loglikelihood',
+           lambda: get_def(co, 'negative_loglikelihood'),
+           lambda: _masked_terms(get_def(co, 'negative_loglikelihood'), {'y': ('v', '(y i)'), 'yhat': ('v', '(yhat i)')}, 'nll',
+                                 '(lg : K → K) ', 'y yhat', funcs={'np.log': lambda a: (a[0][0], f'(lg {a[0][1]})')}),
+           _masked_fallback('nll', '(lg : K → K) ', 'y yhat', f'{M}.nllCost lg', f'{M}.nllGrad'))
 
 
 def activation_items(g, ac):
@@ -1119,7 +1333,7 @@ def wavefront_items(g, pr):
     g.item('Wavefront.from_amp_and_phase_backprop_phase', 'prysm/propagation.py:Wavefront.from_amp_and_phase_backprop_phase',
            lambda: get_def(pr, 'Wavefront.from_amp_and_phase_backprop_phase'), phase,
            f'def phaseBack {PAR} (k : K) (gbar g : Cx K) : K := {M}.phaseBack k gbar g\n'
-           f'def phaseFwdK {PAR} (pi wavelength : K) : K := pi\ndef phaseBackK {PAR} (pi wavelength : K) : K := pi\n')
+           f'def phaseFwdK {PAR} (pi wavelength : K) : K := ((((Num.ofInt (2)) * pi) / wavelength) / (Num.ofInt (1000)))\ndef phaseBackK {PAR} (pi wavelength : K) : K := ((((Num.ofInt (2)) * pi) / wavelength) / (Num.ofInt (1000)))\n')
 
 
 def structural_items(g, ft, po, dm):
@@ -1321,6 +1535,10 @@ class MatTr:
         key = ast.unparse(e)
         if key in self.env:
             return self.env[key]
+        if isinstance(e, ast.Subscript) and ast.unparse(e.value) in ('self.Eout', 'self.Ein') \
+                and getattr(self, 'alias', {}).get(ast.unparse(e.slice), ast.unparse(e.slice)) == 'key':
+            # a cached basis of `key` used in place (no local name)
+            return ('Eout', ('M', 'm')) if ast.unparse(e.value) == 'self.Eout' else ('Ein', ('n', 'N'))
         if isinstance(e, ast.Attribute) and e.attr == 'T':
             t, (r, c) = self.ev(e.value)
             return (f'(fun i j => {t} j i)', (c, r))
@@ -1343,6 +1561,7 @@ class MatTr:
         parameters bound to matrices carry their value, other parameters (e.g. the cache key) are aliases of the
         caller's expression."""
         alias = dict(alias or {})
+        self.alias = alias
         res = lambda e: alias.get(ast.unparse(e), ast.unparse(e))
 
         def helper_call(v):
@@ -1616,6 +1835,10 @@ def resample_items(g, ft, dm):
                and norm(' '.join(ba)) in (f'zoom({bd[0]},{bd[1]})', 'zoomin_shape')
                and [norm(x).replace('returnfbar', 'returnf') for x in bp if x.startswith('if')]
                == [norm(x) for x in fp if x.startswith('if')])
+        if not geo:
+            # the text-level comparison of the transform geometry does not recognise this spelling: refuse (hand model + widened sweep)
+            # rather than claim a difference
+            raise Untranslatable('matrix-DFT geometry / prologue of fourier_resample(_backprop) not in the recognised spelling')
         return (f'def resampleFwdChain : List String := {fmt(fc)}\n'
                 f'def resampleBackChain : List String := {fmt(bc)}\n'
                 f'def resampleFwdPre (n : Nat) : Nat := {SHIFT[lf[0]]}\ndef resampleFwdPost (n : Nat) : Nat := {SHIFT[lf[2]]}\n'
@@ -1625,6 +1848,202 @@ def resample_items(g, ft, dm):
                 f'def resampleSameGeometry : Bool := {"true" if geo else "false"}\n')
     g.item('fourier_resample_backprop', 'prysm/x/dm.py:fourier_resample_backprop',
            lambda: [get_def(ft, 'fourier_resample'), get_def(dm, 'fourier_resample_backprop')], build, FB)
+
+
+# ------------------------------------------------------------------------------------------------
+# session 3b: Wavefront-level *_backprop methods -> function-level routines (argument roles, returned labels), and the
+# live-attribute obligation over EVERY forward / backprop method pair of the anchor modules (discovered, not listed)
+# ------------------------------------------------------------------------------------------------
+def wrapper_items(g, pr):
+    def bound(method, callee):
+        fn = get_def(pr, f'Wavefront.{method}')
+        calls = find_calls(fn, callee)
+        if len(calls) != 1:
+            raise Untranslatable(f'Wavefront.{method}: {len(calls)} calls of {callee}')
+        c = calls[0]
+        params = [a.arg for a in get_def(pr, callee).args.args]
+        if len(c.args) > len(params):
+            raise Untranslatable('too many positional arguments')
+        b = {params[k]: a for k, a in enumerate(c.args)}
+        for k in c.keywords:
+            if k.arg is None or k.arg in b or k.arg not in params:
+                raise Untranslatable(f'keyword {k.arg}')
+            b[k.arg] = k.value
+        return fn, b
+
+    def nums(b, names, env):
+        out = []
+        for nm in names:
+            if nm not in b:
+                raise Untranslatable(f'argument {nm} not passed')
+            out.append(Tr(env, mode='rat').expr(b[nm]))
+        return '[' + ', '.join(out) + ']'
+
+    def tags(b, names):
+        return '[' + ', '.join('"' + (ast.unparse(b[nm]) if nm in b else '<default>') + '"' for nm in names) + ']'
+
+    def comparable(bf_, bb_, names):
+        """pass-through arguments that differ textually are a recognised difference only when both are bare names / attributes
+        (another variable is handed over); any other spelling (a call, a hoisted expression) is refused"""
+        for nm in names:
+            x = ast.unparse(bf_[nm]) if nm in bf_ else '<default>'
+            y = ast.unparse(bb_[nm]) if nm in bb_ else '<default>'
+            if x != y and not all(isinstance(v.get(nm), (ast.Name, ast.Attribute)) for v in (bf_, bb_)):
+                raise Untranslatable(f'pass-through argument {nm}: {x} vs {y}')
+
+    def ret_wavefront(fn, env):
+        """(dx term, space text) of the Wavefront returned by the last plain `return Wavefront(...)`"""
+        rets = [r for r in find_returns(fn) if isinstance(r, ast.Call) and ast.unparse(r.func) == 'Wavefront']
+        if not rets:
+            raise Untranslatable('no return Wavefront(...)')
+        r = rets[-1]
+        sig = ['cmplx_field', 'wavelength', 'dx', 'space']
+        b = {sig[k]: a for k, a in enumerate(r.args)}
+        b.update({k.arg: k.value for k in r.keywords})
+        return Tr(env, mode='rat').expr(b['dx']), ast.unparse(b['space'])
+
+    PQ = '(p q efl wl : Rat)'
+
+    def ffs():
+        ff, fb_ = bound('focus_fixed_sampling', 'focus_fixed_sampling')
+        bf, bb = bound('focus_fixed_sampling_backprop', 'focus_fixed_sampling_backprop')
+        # forward: called on the pupil wavefront (self.dx = p) with dx = q;  backprop: called on the psf-plane gradient
+        # (self.dx = q) with dx = p (the pupil sampling)
+        ef = {'self.dx': 'p', 'dx': 'q', 'efl': 'efl', 'self.wavelength': 'wl'}
+        eb = {'self.dx': 'q', 'dx': 'p', 'efl': 'efl', 'self.wavelength': 'wl'}
+        N = ['input_dx', 'prop_dist', 'wavelength', 'output_dx']
+        T = ['wavefunction', 'output_samples', 'shift', 'method']
+        comparable(fb_, bb, T)
+        dxr, sp = ret_wavefront(bf, eb)
+        return (f'def wfFfsFwdNum {PQ} : List Rat := {nums(fb_, N, ef)}\n'
+                f'def wfFfsBackNum {PQ} : List Rat := {nums(bb, N, eb)}\n'
+                f'def wfFfsFwdPass : List String := {tags(fb_, T)}\n'
+                f'def wfFfsBackPass : List String := {tags(bb, T)}\n'
+                f'def wfFfsBackRetDx {PQ} : Rat := {dxr}\n'
+                f'def wfFfsBackRetSpace : String := {json_str(sp)}\n')
+    g.item('Wavefront.focus_fixed_sampling_backprop', 'prysm/propagation.py:Wavefront.focus_fixed_sampling_backprop',
+           lambda: [get_def(pr, 'Wavefront.focus_fixed_sampling'), get_def(pr, 'Wavefront.focus_fixed_sampling_backprop')], ffs,
+           f'def wfFfsFwdNum {PQ} : List Rat := [p, efl, wl, q]\ndef wfFfsBackNum {PQ} : List Rat := [p, efl, wl, q]\n'
+           'def wfFfsFwdPass : List String := ["self.data", "samples", "shift", "method"]\n'
+           'def wfFfsBackPass : List String := ["self.data", "samples", "shift", "method"]\n'
+           f'def wfFfsBackRetDx {PQ} : Rat := p\ndef wfFfsBackRetSpace : String := "\'pupil\'"\n')
+
+    PF = '(p fdx efl wl : Rat)'
+
+    def fpm():
+        ff, fb_ = bound('to_fpm_and_back', 'to_fpm_and_back')
+        bf, bb = bound('to_fpm_and_back_backprop', 'to_fpm_and_back_backprop')
+        e = {'self.dx': 'p', 'fpm_dx': 'fdx', 'efl': 'efl', 'self.wavelength': 'wl'}
+        N = ['dx', 'wavelength', 'efl', 'fpm_dx']
+        T = ['wavefunction', 'fpm', 'method', 'shift', 'return_more']
+
+        def more(fn):
+            """return_more branch: the names the tuple is unpacked into, the names returned, the dx each is labelled with"""
+            unpack = ret = None
+            label = {}
+            for n in ast.walk(fn):
+                if isinstance(n, ast.Assign) and isinstance(n.targets[0], ast.Tuple) and ast.unparse(n.value) == 'pak':
+                    unpack = [ast.unparse(x) for x in n.targets[0].elts]
+                if isinstance(n, ast.Assign) and isinstance(n.targets[0], ast.Name) and isinstance(n.value, ast.Call) \
+                        and ast.unparse(n.value.func) == 'Wavefront' and len(n.value.args) >= 3 \
+                        and ast.unparse(n.value.args[0]) == n.targets[0].id:
+                    label[n.targets[0].id] = Tr(e, mode='rat').expr(n.value.args[2])
+                if isinstance(n, ast.Return) and isinstance(n.value, ast.Tuple):
+                    ret = [ast.unparse(x) for x in n.value.elts]
+            if unpack is None or ret is None or set(unpack) != set(ret) or any(x not in label for x in ret):
+                raise Untranslatable('return_more branch not in the recognised shape')
+            return [unpack.index(x) for x in ret], [label[x] for x in ret]
+        comparable(fb_, bb, T)
+        po, pl = more(bf)
+        dxr, sp = ret_wavefront(bf, e)
+        return (f'def wfFpmFwdNum {PF} : List Rat := {nums(fb_, N, e)}\n'
+                f'def wfFpmBackNum {PF} : List Rat := {nums(bb, N, e)}\n'
+                f'def wfFpmFwdPass : List String := {tags(fb_, T)}\n'
+                f'def wfFpmBackPass : List String := {tags(bb, T)}\n'
+                f'def wfFpmBackMoreOrder : List Nat := [{", ".join(map(str, po))}]\n'
+                f'def wfFpmBackMoreDx {PF} : List Rat := [{", ".join(pl)}]\n'
+                f'def wfFpmBackRetDx {PF} : Rat := {dxr}\n')
+    g.item('Wavefront.to_fpm_and_back_backprop', 'prysm/propagation.py:Wavefront.to_fpm_and_back_backprop',
+           lambda: [get_def(pr, 'Wavefront.to_fpm_and_back'), get_def(pr, 'Wavefront.to_fpm_and_back_backprop')], fpm,
+           f'def wfFpmFwdNum {PF} : List Rat := [p, wl, efl, fdx]\ndef wfFpmBackNum {PF} : List Rat := [p, wl, efl, fdx]\n'
+           'def wfFpmFwdPass : List String := ["self.data", "fpm", "method", "shift", "return_more"]\n'
+           'def wfFpmBackPass : List String := ["self.data", "fpm", "method", "shift", "return_more"]\n'
+           f'def wfFpmBackMoreOrder : List Nat := [0, 1, 2]\ndef wfFpmBackMoreDx {PF} : List Rat := [p, fdx, fdx]\n'
+           f'def wfFpmBackRetDx {PF} : Rat := p\n')
+
+
+def json_str(t):
+    return '"' + t.replace('\\', '\\\\').replace('"', '\\"') + '"'
+
+
+def live_general_item(g, repo):
+    """EVERY class of the anchor modules with a forward / backprop method pair (`forward*`/`backprop*`, `X`/`X_backprop`):
+    each `self.attr` the backprop reads is read or written by its forward (directly or through a helper method of the class), is a
+    method / property, or is on the short allow list.  The pairs are discovered from the source, so a new node is covered as it appears."""
+    MODS = ['prysm/x/optym/activation.py', 'prysm/x/optym/operators.py', 'prysm/x/optym/cost.py', 'prysm/x/dm.py',
+            'prysm/propagation.py', 'prysm/fttools.py', 'prysm/polynomials/__init__.py']
+    ALLOW = {('DM', 'invprojx'), ('DM', 'invprojy'), ('DM', 'ifn'),          # rotation coordinates (out of scope), shape only
+             ('MatrixDFTExecutor', 'Ein'), ('MatrixDFTExecutor', 'Eout'),    # the basis cache, filled under the same key by both
+             ('Wavefront', 'space'), ('Wavefront', 'dx'), ('Wavefront', 'wavelength')}   # primary public labels copied onto the returned container
+
+    def attrs(fn, ctx_type):
+        return {n.attr for n in ast.walk(fn) if isinstance(n, ast.Attribute) and isinstance(n.value, ast.Name)
+                and n.value.id == 'self' and isinstance(n.ctx, ctx_type)}
+
+    def build():
+        pairs, stale, hooked = [], [], []
+        for rel in MODS:
+            mod, _ = load(repo, rel)
+            for c in mod.body:
+                if not isinstance(c, ast.ClassDef):
+                    continue
+                meth = {n.name: n for n in c.body if isinstance(n, ast.FunctionDef)}
+                for bname, b in meth.items():
+                    if 'backprop' not in bname:
+                        continue
+                    cands = [bname.replace('backprop', 'forward'), bname.replace('_backprop', ''), bname.replace('backprop_', 'forward_')]
+                    if bname.startswith('from_amp_and_phase_backprop'):
+                        cands.append('from_amp_and_phase')
+                    fname = next((x for x in cands if x in meth and x != bname), None)
+                    if fname is None:
+                        continue          # a helper / an unpaired routine: not a pair (its reads count for the methods that call it)
+                    if '__setattr__' in meth or '__getattr__' in meth:
+                        hooked.append(f'{c.name}.{fname}/{bname}')
+                        continue
+                    f = meth[fname]
+                    live = attrs(f, ast.Load) | attrs(f, ast.Store) | set(meth)
+                    seen, todo = set(), [f]
+                    while todo:                       # helper methods of the class called (transitively) by the forward
+                        h = todo.pop()
+                        for n in ast.walk(h):
+                            if isinstance(n, ast.Call) and isinstance(n.func, ast.Attribute) and isinstance(n.func.value, ast.Name) \
+                                    and n.func.value.id == 'self' and n.func.attr in meth and n.func.attr not in seen:
+                                seen.add(n.func.attr)
+                                live |= attrs(meth[n.func.attr], ast.Load) | attrs(meth[n.func.attr], ast.Store)
+                                todo.append(meth[n.func.attr])
+                    if any(isinstance(d, ast.Name) and d.id == 'classmethod' for d in f.decorator_list):
+                        live |= {'wavelength', 'data', 'dx', 'space'} if c.name == 'Wavefront' else set()   # a constructor: its product's fields
+                    pairs.append(f'{c.name}.{fname}/{bname}')
+                    breads, seen_b, todo_b = set(attrs(b, ast.Load)), set(), [b]
+                    while todo_b:                     # helper methods called (transitively) by the backprop read on its behalf
+                        h = todo_b.pop()
+                        for n in ast.walk(h):
+                            if isinstance(n, ast.Call) and isinstance(n.func, ast.Attribute) and isinstance(n.func.value, ast.Name) \
+                                    and n.func.value.id == 'self' and n.func.attr in meth and n.func.attr not in seen_b \
+                                    and n.func.attr != fname:
+                                seen_b.add(n.func.attr)
+                                breads |= attrs(meth[n.func.attr], ast.Load)
+                                todo_b.append(meth[n.func.attr])
+                    for a in sorted(breads - live):
+                        if (c.name, a) not in ALLOW:
+                            stale.append(f'{c.name}.{bname} reads self.{a}')
+        fmt = lambda l: '[' + ', '.join(json_str(x) for x in l) + ']'
+        return (f'def liveAttributePairs : List String := {fmt(sorted(pairs))}\n'
+                f'def backpropStaleReads : List String := {fmt(sorted(stale))}\n'
+                f'def liveAttributeHooked : List String := {fmt(sorted(hooked))}\n')
+    g.item('backprop.live_attributes_all', 'prysm/x/optym/activation.py + operators.py + x/dm.py + propagation.py + fttools.py',
+           lambda: [load(repo, rel)[0] for rel in MODS], build,
+           'def liveAttributePairs : List String := ["Arctan.forward/backprop", "DM.render/render_backprop", "DiscreteEncoder.forward/backprop", "GumbelSoftmax.forward/backprop", "MatrixDFTExecutor.dft2/dft2_backprop", "MatrixDFTExecutor.idft2/idft2_backprop", "Sigmoid.forward/backprop", "Softmax.forward/backprop", "Softplus.forward/backprop", "SpatialGradient2D.forward_x/backprop_x", "SpatialGradient2D.forward_y/backprop_y", "Tanh.forward/backprop", "Wavefront.babinet/babinet_backprop", "Wavefront.focus_fixed_sampling/focus_fixed_sampling_backprop", "Wavefront.intensity/intensity_backprop", "Wavefront.to_fpm_and_back/to_fpm_and_back_backprop"]\ndef backpropStaleReads : List String := []\ndef liveAttributeHooked : List String := []\n')
 
 
 def generate(repo):
@@ -1650,6 +2069,8 @@ def generate(repo):
     padcrop_items(g, repo)
     live_attribute_items(g, ac, dm)
     flatten_order_items(g, po, ac, co, dm)
+    wrapper_items(g, pr)
+    live_general_item(g, repo)
     return g.finish()
 
 
